@@ -1612,24 +1612,26 @@ func serverSettingsHandler(c web.C, w http.ResponseWriter, r *http.Request) {
 	}
 	w.Header().Set("Content-Type", "text/plain")
 
-	// Handle GC percentage setting
-	percent, found, err := config.GetInt("gc")
+	// Parse every setting before any is applied: a request with a bad value is refused as a whole.
+	percent, gcFound, err := config.GetInt("gc")
 	if err != nil {
 		BadRequest(w, r, "POST on settings endpoint had bad parsing of 'gc' key: %v", err)
 		return
 	}
-	if found {
+	maxOps, throttleFound, err := config.GetInt("throttle")
+	if err != nil {
+		BadRequest(w, r, "POST on settings endpoint had bad parsing of 'throttle' key: %v", err)
+		return
+	}
+
+	// Handle GC percentage setting
+	if gcFound {
 		old := debug.SetGCPercent(percent)
 		fmt.Fprintf(w, "DVID server garbage collection target percentage set to %d from %d\n", percent, old)
 	}
 
 	// Handle max throttle ops setting
-	maxOps, found, err := config.GetInt("throttle")
-	if err != nil {
-		BadRequest(w, r, "POST on settings endpoint had bad parsing of 'throttle' key: %v", err)
-		return
-	}
-	if found {
+	if throttleFound {
 		old := maxThrottledOps
 		setMaxThrottleOps(maxOps)
 		fmt.Fprintf(w, "Maximum throttled ops set to %d from %d\n", maxOps, old)
